@@ -82,9 +82,9 @@ class ListProxy(list, ContainerValueMixin):
         index: Union[int, slice],  # type: ignore[override]
         item: Union[Any, Iterable],
     ) -> None:
-        if isinstance(index, slice) and isinstance(item, (list, tuple)):
+        if isinstance(index, slice):
             super().__setitem__(index, [self._validate(i) for i in item])
-        elif isinstance(index, int):
+        else:
             super().__setitem__(index, self._validate(item))
 
     def _validate(self, value: Any) -> Any:
